@@ -1,7 +1,7 @@
 """C14 — mirrors and subscriptions never diverge silently."""
 import mir
 from mir import callee
-from common import controlling_edges, switch_expr, switch_meaning, const_value
+from common import controlling_edges, switch_expr, switch_meaning, const_value, arith
 from robs_common import *  # noqa: F401,F403
 
 EXPLANATION = (
@@ -176,7 +176,7 @@ def r14_5(ck, F):
             # the sent element is buffer[pos]; a store pos = pos + 1 follows before any Yield / loop end
             idx_ok = "pos" in mir.field_leaves(e)
             incs = [sb for sb, i, s in x.field_stores("pos")
-                    if s["rv"]["r"] == "use" and (lambda v: v[0] == "bin" and v[1] == "Add" and const_value(v[3]) == 1)(x.expr(s["rv"]["o"]))]
+                    if s["rv"]["r"] == "use" and (lambda v: v is not None and v[0] == "Add" and const_value(v[2]) == 1)(arith(x.expr(s["rv"]["o"])))]
             p = x.find_path([bb], set(x.yields()) | set(x.returns()), avoid=incs, from_succ=True)
             ck.expect(idx_ok and bool(incs) and p is None, "list::task#push-advances",
                       "Push(buffer[pos]) is followed by pos += 1 before any suspension",
@@ -204,7 +204,8 @@ def r14_6(ck, F):
         for bb, i, s in b.assigns():
             if s["rv"]["r"] == "use" and len(s["p"]) >= 2:
                 v = b.expr(s["rv"]["o"])
-                if v[0] == "bin" and v[1] == "Sub" and const_value(v[3]) == 1 and "len" in mir.field_leaves(v[2]) + [mir.last_field(v[2])]:
+                ar = arith(v)
+                if ar is not None and ar[0] == "Sub" and const_value(ar[2]) == 1 and "len" in mir.field_leaves(ar[1]) + [mir.last_field(ar[1])]:
                     decs.append(bb)
         ys = set(b.yields())
         bad = [d for d in decs if b.reach([d], include_start=False) & ys]
